@@ -462,9 +462,11 @@ Definition step (md : exec_mode) (D : tenv) (F : list fundef) (c : config) (ch :
       match action_of md D pf, self_chan pt with
       | ACtrl k provs, Some k' =>
         if bool_decide (k = k') && polls_control md D pt then
-          (* fwdhandleControlMessageNP: close the old providers, continue as the forwarder's *)
+          (* fwdhandleControlMessageNP: close the first provider (the one the request was sent to) and
+             put the forwarder's providers in its place *)
           SStep (apply_effect (del_proc c f) t pt
-                   (Eff (Continue (set_provs_body pt provs (pr_body0 pt))) [] [] (cids_of (pr_provs pt)) []))
+                   (Eff (Continue (set_provs_body pt (provs ++ tl (pr_provs pt)) (pr_body0 pt))) [] []
+                        (cids_of (firstn 1 (pr_provs pt))) []))
         else SNotEnabled
       | _, _ => SNotEnabled
       end
